@@ -19,6 +19,8 @@ RULE = ("programs whose steps and step hooks write unique markers (step id @ sce
         "logging; all 8 on/off combinations of --no-capture / --no-capture-stderr / --no-logcapture; all outcomes incl. "
         "KeyboardInterrupt in steps, hook errors and KeyboardInterrupt in step hooks, nested execute_steps, logging "
         "level/filter variations, 2-6 scenarios per run; sentinel objects stand in for the process's stdout/stderr. "
+        "A real JUnit reporter gets the output of failing scenarios whose steps print progress bars full of terminal control sequences; the plain "
+        "formatter must show the failure report also of steps that carry a doc-string or a table. "
         "A case = one run; non-trivial = >=2 scenarios with >=1 non-passing step and >=1 capture switch on; distinct by "
         "hash of (program, args, fault).")
 ASSUMPTIONS = [
